@@ -33,8 +33,9 @@ func init() {
 const c15Budget = 20000000
 
 type c15Info struct {
-	accepted bool
-	outcome  string
+	accepted   bool
+	outcome    string
+	knownRound bool
 }
 
 func oracleC15(l *harness.Live) (c15Info, *harness.Failure) {
@@ -91,6 +92,13 @@ func oracleC15(l *harness.Live) (c15Info, *harness.Failure) {
 			if pan != nil && pan.Budget {
 				return info, harness.Failf(mode+" terminates", fmt.Sprintf("still running after %d navigator operations on a %d-node document", 2*c15Budget, len(l.Doc.Nodes)), mode+" does not terminate")
 			}
+		}
+		if bad == "int" && harness.Excluded("round-int") && strings.Contains(l.Expr, "round") {
+			// exactly the known finding KF-round (Evaluate hands out round()'s Go int), and
+			// nothing more: any other misbehaviour of an expression using round() is still reported
+			info.knownRound = true
+			bad = ""
+			outcome = mode + ": int (KF-round)"
 		}
 		if bad != "" {
 			return info, harness.Failf("bool, float64, string or *NodeIterator", bad, "Evaluate returned a value of an undocumented type")
@@ -164,15 +172,14 @@ func TestC15Rapid(t *testing.T) {
 			ast = g.WildExpr(3, xgen.WildOpts{Vars: true, AnyArity: true, NSAxis: true})
 			text, kind = xast.Render(ast), "gen:wild"
 		}
-		if harness.Excluded("round-int") && strings.Contains(text, "round") {
-			uC15Rapid.Exclude("round-int")
-			return
-		}
 		l := &harness.Live{Property: "C15", Check: "C15/no-runtime-error", Doc: doc, Ctx: ctx, Expr: text, AST: ast, Flavour: flavourOf(rt)}
 		journal.Record(l.Save())
 		info, f := oracleC15(l)
 		if f != nil {
 			harness.Report(rt, uC15Rapid, l, f)
+		}
+		if info.knownRound {
+			uC15Rapid.Exclude("round-int")
 		}
 		labels := []string{kind}
 		if !info.accepted {
@@ -243,10 +250,6 @@ func TestC15Enum(t *testing.T) {
 		if i%shards != shard {
 			continue
 		}
-		if harness.Excluded("round-int") && strings.Contains(ex, "round") {
-			uC15Enum.Exclude("round-int")
-			continue
-		}
 		for _, d := range docs {
 			for _, ctx := range []*xdoc.Node{d.Root, d.Nodes[len(d.Nodes)-1]} {
 				l := &harness.Live{Property: "C15", Check: "C15/no-runtime-error", Doc: d, Ctx: ctx, Expr: ex}
@@ -254,6 +257,9 @@ func TestC15Enum(t *testing.T) {
 				info, f := oracleC15(l)
 				if f != nil {
 					harness.Report(t, uC15Enum, l, f)
+				}
+				if info.knownRound {
+					uC15Enum.Exclude("round-int")
 				}
 				total++
 				labels := []string{kinds[i]}
@@ -280,11 +286,11 @@ func FuzzEval(f *testing.F) {
 	}
 	d := xdoc.MustParse("<a x='1'><a>{2}</a><b>{t}</b><!--c--></a>")
 	f.Fuzz(func(t *testing.T, s string, c byte) {
-		if strings.Contains(s, "round") {
-			return // KF-round (known finding): Evaluate returns a Go int
-		}
 		l := &harness.Live{Property: "C15", Check: "C15/no-runtime-error", Doc: d, Ctx: d.Nodes[int(c)%len(d.Nodes)], Expr: s}
 		if _, fail := oracleC15(l); fail != nil {
+			if fail.Got == "int" && strings.Contains(s, "round") {
+				return // KF-round (known finding): Evaluate hands out round()'s Go int
+			}
 			t.Fatalf("VIOLATION C15 expr=%q ctx=%d: %s", s, int(c)%len(d.Nodes), fail)
 		}
 	})
